@@ -1,2 +1,172 @@
-(* C17 — range and conditional requests describe exactly the bytes delivered.  (statements only) *)
-From Verif Require Import lib.Base lib.Str model.Range.
+(* C17 — range and conditional requests describe exactly the bytes delivered.
+   Statements only; each is closed by [exact] of a lemma from proofs/C17_*.v.
+   Model: coq/model/Range.v (get_first_range, _file_iter_range, static_file
+   after the path checks) — faithful to /repo with fix F20 (empty
+   If-Modified-Since header). *)
+From Verif Require Import lib.Base lib.Str lib.PyIntParse model.Static model.Range
+     proofs.C17_range proofs.C17_serve.
+Local Open Scope Z_scope.
+
+(* Whatever Python's int() does (any function [pint]): a range returned by
+   get_first_range for a representation of [len] bytes is a non-empty
+   half-open interval inside it. *)
+Theorem C17_range_sound :
+  forall (pint : str -> option Z) (hdr : str) (len s e : Z),
+    get_first_range pint hdr len = Some (s, e) -> 0 <= s /\ s < e /\ e <= len.
+Proof. exact range_sound_lemma. Qed.
+Print Assumptions C17_range_sound.
+
+(* With the concrete decimal parser: for every header of the RFC 7233 grammar
+     "bytes=" first-spec [ "," anything ]
+   with first-spec = 1*DIGIT "-" 1*DIGIT | 1*DIGIT "-" | "-" 1*DIGIT
+   (each numeral at most 4300 digits — Python's int() refuses longer ones and
+   the code then answers 416) the result is the first spec clipped to the
+   representation; [rfc_range] is None exactly when the spec selects no byte
+   (C17_rfc_none_iff_unsatisfiable).  A reversed spec "5-2" is syntactically
+   invalid in the RFC (which says: ignore the header); it selects nothing here
+   and the code answers 416.
+     digit_str d := d <> [] /\ forallb is_digit d = true /\ length d <= 4300
+     tail_ok t   := t = [] \/ exists t', t = "," :: t'                     *)
+Theorem C17_range_rfc :
+  forall (da db t : str) (len : Z), tail_ok t -> 0 <= len ->
+    (digit_str da -> digit_str db ->
+       get_first_range py_int_dec (s_bytes_eq ++ da ++ DASH :: db ++ t) len
+       = rfc_range (SFromTo (dval da) (dval db)) len)
+    /\ (digit_str da ->
+       get_first_range py_int_dec (s_bytes_eq ++ da ++ DASH :: t) len
+       = rfc_range (SFrom (dval da)) len)
+    /\ (digit_str db ->
+       get_first_range py_int_dec (s_bytes_eq ++ DASH :: db ++ t) len
+       = rfc_range (SSuffix (dval db)) len).
+Proof. exact range_rfc_lemma. Qed.
+Print Assumptions C17_range_rfc.
+
+Theorem C17_rfc_none_iff_unsatisfiable :
+  forall sp len, rfc_range sp len = None <-> ~ selects sp len.
+Proof. exact rfc_range_none_iff. Qed.
+Print Assumptions C17_rfc_none_iff_unsatisfiable.
+
+(* _file_iter_range(fp, offset, n, maxread) on a regular file, offset >= 0,
+   n >= 0, maxread > 0: terminates within the model's fuel, delivers exactly
+   file[offset : offset+n], every chunk non-empty and at most maxread bytes. *)
+Theorem C17_iter_exact_and_bounded :
+  forall (file : list N) (offset n maxread : Z),
+    0 <= offset -> 0 <= n -> 0 < maxread ->
+    exists cs, file_iter_range file offset n maxread = IterOk cs
+               /\ concat cs = slice file (Z.to_nat offset) (Z.to_nat (offset + n))
+               /\ Forall (chunk_ok maxread) cs.
+Proof. exact file_iter_range_spec. Qed.
+Print Assumptions C17_iter_exact_and_bounded.
+
+(* A GET with a non-empty Range header that is not answered 304 is answered
+   416 (no file bytes) or 206 whose Content-Range, Content-Length and delivered
+   chunks all describe the same slice [s, e), 0 <= s < e <= len, for ANY int
+   parser, date parser, file and streaming buffer > 0.
+     not_modified mtime ims_hdr := match ims_value parse_date ims_hdr with Some t => mtime <=? t | None => false end
+     range_given  range_hdr     := the header if present and non-empty
+     content_range s e len      := "bytes " ++ str(s) ++ "-" ++ str(e-1) ++ "/" ++ str(len)
+     chunk_ok maxread c         := 0 < length c /\ length c <= maxread *)
+Theorem C17_consistent :
+  forall (pint parse_date : str -> option Z) file mtime ims_hdr range_hdr maxread h,
+    0 < maxread ->
+    not_modified parse_date mtime ims_hdr = false ->
+    range_given range_hdr = Some h ->
+    let len := Z.of_nat (length file) in
+    let r := sf_serve pint parse_date file mtime ims_hdr false range_hdr maxread in
+    match get_first_range pint h len with
+    | None => r_status r = 416 /\ body_bytes file (r_body r) = []
+    | Some (s, e) =>
+      0 <= s /\ s < e /\ e <= len
+      /\ r_status r = 206
+      /\ r_crange r = Some (content_range s e len)
+      /\ r_clen r = Some (dec_of_Z (e - s))
+      /\ exists cs, r_body r = BIter (IterOk cs)
+                    /\ concat cs = slice file (Z.to_nat s) (Z.to_nat e)
+                    /\ Z.of_nat (length (concat cs)) = e - s
+                    /\ Forall (chunk_ok maxread) cs
+    end.
+Proof. exact consistent_206_lemma. Qed.
+Print Assumptions C17_consistent.
+
+(* Without a Range header (absent or empty) the whole file is delivered with
+   its true length. *)
+Theorem C17_whole_file :
+  forall (pint parse_date : str -> option Z) file mtime ims_hdr range_hdr maxread,
+    not_modified parse_date mtime ims_hdr = false ->
+    range_given range_hdr = None ->
+    let r := sf_serve pint parse_date file mtime ims_hdr false range_hdr maxread in
+    r_status r = 200 /\ r_clen r = Some (dec_of_Z (Z.of_nat (length file))) /\ r_crange r = None
+    /\ r_body r = BFile /\ body_bytes file (r_body r) = file.
+Proof. exact whole_200_lemma. Qed.
+Print Assumptions C17_whole_file.
+
+(* If-Modified-Since: a parsed date not older than the file (whole seconds)
+   gives 304, no body, the file is not even opened; no parsed date or an older
+   one gives 200/206/416.  An absent or EMPTY header yields no date (F20). *)
+Theorem C17_conditional :
+  forall (pint parse_date : str -> option Z) file mtime ims_hdr head range_hdr maxread,
+    let r := sf_serve pint parse_date file mtime ims_hdr head range_hdr maxread in
+    (forall t, ims_value parse_date ims_hdr = Some t -> mtime <= t ->
+       r_status r = 304 /\ r_body r = BText /\ body_bytes file (r_body r) = [] /\ r_opened r = false
+       /\ r_crange r = None)
+    /\ ((ims_value parse_date ims_hdr = None \/ exists t, ims_value parse_date ims_hdr = Some t /\ t < mtime) ->
+       r_status r = 200 \/ r_status r = 206 \/ r_status r = 416).
+Proof. exact conditional_lemma. Qed.
+Print Assumptions C17_conditional.
+
+Theorem C17_ims_absent_or_empty :
+  forall (parse_date : str -> option Z) ims_hdr,
+    ims_hdr = None \/ ims_hdr = Some [] -> ims_value parse_date ims_hdr = None.
+Proof. exact ims_absent_lemma. Qed.
+Print Assumptions C17_ims_absent_or_empty.
+
+(* HEAD: status and headers of the corresponding GET, no body, file not opened *)
+Theorem C17_head :
+  forall (pint parse_date : str -> option Z) file mtime ims_hdr range_hdr maxread,
+    let g := sf_serve pint parse_date file mtime ims_hdr false range_hdr maxread in
+    let h := sf_serve pint parse_date file mtime ims_hdr true range_hdr maxread in
+    r_status h = r_status g /\ r_clen h = r_clen g /\ r_crange h = r_crange g
+    /\ r_accept h = r_accept g /\ r_lastmod h = r_lastmod g /\ r_date h = r_date g
+    /\ r_body h = BText /\ body_bytes file (r_body h) = [] /\ r_opened h = false.
+Proof. exact head_lemma. Qed.
+Print Assumptions C17_head.
+
+(* ---- non-vacuity ---- *)
+Local Open Scope N_scope.
+Definition ex_file : list N := [48; 49; 50; 51; 52; 53; 54; 55; 56; 57].
+(* "bytes=2-7,0-1" *)
+Definition ex_hdr : str := [98; 121; 116; 101; 115; 61; 50; 45; 55; 44; 48; 45; 49].
+
+Example C17_consistent_nonvacuous :
+  let r := sf_serve py_int_dec (fun _ => None) ex_file 1000 None false (Some ex_hdr) 4 in
+  r_status r = 206%Z
+  /\ r_crange r = Some [98; 121; 116; 101; 115; 32; 50; 45; 55; 47; 49; 48]      (* "bytes 2-7/10" *)
+  /\ r_clen r = Some [54]                                                         (* "6" *)
+  /\ r_body r = BIter (IterOk [[50; 51; 52; 53]; [54; 55]]).
+Proof. vm_compute. repeat split. Qed.
+
+Example C17_range_rfc_nonvacuous :
+  digit_str [50] /\ digit_str [55] /\ tail_ok [44; 48; 45; 49]
+  /\ get_first_range py_int_dec ex_hdr 10 = Some (2, 8)%Z
+  /\ get_first_range py_int_dec ex_hdr 5 = Some (2, 5)%Z
+  /\ get_first_range py_int_dec ex_hdr 2 = None.
+Proof.
+  repeat split; try (vm_compute; congruence); try (vm_compute; lia).
+  right. eexists. reflexivity.
+Qed.
+
+Example C17_conditional_nonvacuous :
+  let pd := fun _ : str => Some 1000%Z in
+  r_status (sf_serve py_int_dec pd ex_file 1000 (Some [120]) false (Some ex_hdr) 4) = 304%Z
+  /\ r_status (sf_serve py_int_dec pd ex_file 1001 (Some [120]) false (Some ex_hdr) 4) = 206%Z
+  /\ r_status (sf_serve py_int_dec pd ex_file 1000 (Some []) false None 4) = 200%Z.
+Proof. vm_compute. repeat split. Qed.
+
+(* leniencies of the parser that stay inside "206 ... consistent" (not RFC grammar) *)
+Example C17_lenient_headers :
+  (* "xbytes=1-2" *) get_first_range py_int_dec [120; 98; 121; 116; 101; 115; 61; 49; 45; 50] 10 = Some (1, 3)%Z
+  (* "bytes=1_0-2_0" *) /\ get_first_range py_int_dec [98; 121; 116; 101; 115; 61; 49; 95; 48; 45; 50; 95; 48] 100 = Some (10, 21)%Z
+  (* "bytes= 1 -+5 " *) /\ get_first_range py_int_dec [98; 121; 116; 101; 115; 61; 32; 49; 32; 45; 43; 53; 32] 100 = Some (1, 6)%Z
+  (* "bytes=-0" *) /\ get_first_range py_int_dec [98; 121; 116; 101; 115; 61; 45; 48] 100 = None
+  (* "bytes=5-2" *) /\ get_first_range py_int_dec [98; 121; 116; 101; 115; 61; 53; 45; 50] 100 = None.
+Proof. vm_compute. repeat split. Qed.
